@@ -124,6 +124,8 @@ class Method(Variable):  # i.e. TypeBound procedure
                 self.link_obj = link_obj
                 if self.pass_name is not None:
                     self.pass_name = self.pass_name.lower()
+                    # Forget the position found in an earlier version of the target
+                    self.drop_arg = -1
                     # Only procedures have arguments, the name may belong to a variable
                     args_snip = getattr(link_obj, "args_snip", None) or ""
                     for i, arg in enumerate(args_snip.split(",")):
